@@ -11,6 +11,7 @@ import ast
 from .core import Unsupported, find_def
 from .driver_py import COQTY, V, dotted
 from .stops_py import STr
+from .lazy import Inliner, normalise
 
 OUTPUTS = ["GenFilters.v"]
 SRC = "pyhms/sprout/sprout_filters.py"
@@ -36,6 +37,10 @@ class FTr(STr):
         binders, its = [], []
         for g in gens:
             it = self._expr(g.iter, env2, pre)
+            if it.ty == "cmap":       # iterating a dict = iterating its keys
+                it = V(f"(cm_keys {it.code})", "deme_list")
+            if it.ty == "cands":      # candidates[deme].individuals reached through an inlined entry
+                it = V(it.code, "inds")
             if it.ty not in LISTS or not isinstance(g.target, ast.Name):
                 self.bad(e, f"comprehension over {it.ty}")
             x = "v_" + g.target.id
@@ -167,7 +172,7 @@ class FTr(STr):
 
     @staticmethod
     def opaque_ok_features(e):
-        """DemeFeatures(...) values are not part of the model; they may only read the clustering object / constants"""
+        """DemeFeatures(...) values are not part of the model; they may only read the clustering object / constants / a number computed from it"""
         for n in ast.walk(e):
             if isinstance(n, ast.Call) and dotted(n.func) not in ("DemeFeatures", "np.mean"):
                 return False
@@ -191,6 +196,8 @@ class FTr(STr):
             self.helper_template("_is_nbc_far_enough", "return nla.norm(ind.genome - centroid, ord=self.norm_ord) > self.min_distance_factor * mean_dist")
             ind, sib = self._expr(e.args[0], env, pre), self._expr(e.args[1].value, env, pre)
             md = e.args[2]
+            if isinstance(md, ast.Name) and getattr(self, "inl", None) is not None:
+                md = self.inl.inline_at(md)      # a temporary holding the parent's nbc_mean_distance
             # candidates[deme].features.nbc_mean_distance: the threshold factor x mean distance is a per-parent oracle value
             if isinstance(md, ast.Attribute) and md.attr == "nbc_mean_distance" and isinstance(md.value, ast.Attribute) and md.value.attr == "features" and isinstance(md.value.value, ast.Subscript):
                 ent = self._expr(md.value.value, env, pre)
@@ -225,6 +232,9 @@ class FTr(STr):
             if v.ty == "cmap":
                 return V(f"(cm_keys {v.code})", "deme_list")
         if d == "len" and len(e.args) == 1:
+            dd = dotted(e.args[0])
+            if dd is not None and dd.endswith(".levels") and isinstance(env.get(dd.split(".")[0]), V) and env[dd.split(".")[0]].ty == "treeobj":
+                return V("(height c)", "nat")
             v = self._expr(e.args[0], env, pre)
             if v.ty in ("deme_list", "nat_list", "inds"):
                 return V(f"(length {v.code})", "nat")
@@ -291,6 +301,16 @@ class FTr(STr):
                     env[nm] = V(new, "cmap")
                     return " ".join(pre + p2) + f" let {new} := cm_add {cm.code} {key.code} {val.code} in\n  " + go(env)
                 self.bad(s, "new candidate entry")
+            if isinstance(t, ast.Name) and isinstance(s.value, ast.Call) and dotted(s.value.func) == "np.mean" and self.opaque_ok_features(s.value) \
+                    and all(isinstance(env.get(n.id), V) and env[n.id].ty == "nbcobj" for n in ast.walk(s.value) if isinstance(n, ast.Name) and n.id != "np"):
+                env2 = dict(env)
+                env2[t.id] = V("", "opaque")       # a number that only goes into DemeFeatures (not part of the model)
+                return go(env2)
+            if isinstance(t, ast.Name) and isinstance(s.value, ast.Attribute) and isinstance(s.value.value, ast.Attribute) and s.value.value.attr == "features" \
+                    and not any(isinstance(n, ast.Call) for n in ast.walk(s.value)):
+                env2 = dict(env)
+                env2[t.id] = V("", "opaque")       # a feature value held in a temporary: looked through where it is used (Inliner)
+                return go(env2)
             if isinstance(t, ast.Name):
                 env2 = dict(env)
                 pre, v = self.expr(s.value, env2)
@@ -316,6 +336,8 @@ class FTr(STr):
             # loops over demes / levels carrying the candidate dictionary
             env = dict(env)
             pre, it = self.expr(s.iter, env)
+            if it.ty == "cmap":       # iterating a dict = iterating its keys
+                it = V(f"(cm_keys {it.code})", "deme_list")
             if it.ty not in LISTS or not isinstance(s.target, ast.Name) or s.orelse or self.has(s.body, ast.Break) or self.has(s.body, ast.Continue) or self.has(s.body, ast.Return):
                 self.bad(s, f"for over {it.ty}")
             carried = self.assigned_tracked(s.body, env)
@@ -348,11 +370,12 @@ class FTr(STr):
 
 
 def filter_method(mod, cls, params, fname):
-    fn = find_def(mod, "__call__", cls)
+    fn = normalise(find_def(mod, "__call__", cls))
     argn = [a.arg for a in fn.args.args]
     if len(argn) != 3 or argn[0] != "self":
         raise Unsupported(f"{SRC}:{fn.lineno}: {cls}.__call__ signature changed: {argn}")
     tr = FTr(SRC, cls, fname, params, mod)
+    tr.inl = Inliner(fn, SRC)
     env = {argn[1]: V("v_" + argn[1] + "0", "cmap")}
     if argn[2] != "_":
         env[argn[2]] = V("tree", "treeobj", deps=set())
@@ -388,7 +411,7 @@ def translate_one(repo, which):
 
 
 def generator_method(mod, src, cls, fname):
-    fn = find_def(mod, "__call__", cls)
+    fn = normalise(find_def(mod, "__call__", cls))
     argn = [a.arg for a in fn.args.args]
     if argn != ["self", "tree"]:
         raise Unsupported(f"{src}:{fn.lineno}: {cls}.__call__ signature changed: {argn}")
@@ -418,6 +441,11 @@ MSRC = "pyhms/sprout/sprout_mechanisms.py"
 
 
 def _is_bookkeeping(stmt):
+    if isinstance(stmt, ast.Assign) and len(stmt.targets) == 1 and isinstance(stmt.targets[0], ast.Name) and isinstance(stmt.value, ast.Call) \
+            and dotted(stmt.value.func) == "copy.deepcopy" and len(stmt.value.args) == 1 and isinstance(stmt.value.args[0], ast.DictComp):
+        dc0 = stmt.value.args[0]
+        if not any(isinstance(n, ast.Call) and dotted(n.func) != "candidates.items" for n in ast.walk(dc0)):
+            return True
     """statements of SproutMechanism.get_seeds that only feed the plotting history (deep copies of {deme.id: candidates} appended to
     self._generated/_used..._history): no effect on the candidates or on modelled state"""
     if isinstance(stmt, ast.Assign) and len(stmt.targets) == 1 and isinstance(stmt.targets[0], ast.Name) and isinstance(stmt.value, ast.Call) \
@@ -453,6 +481,14 @@ def translate_mechanism(repo):
     want = ["candidates = self.candidates_generator(tree)", "candidates = self.apply_deme_filters(candidates, tree)", "candidates = self.apply_tree_filters(candidates, tree)",
             "return {k: v for k, v in candidates.items() if candidates[k].individuals}"]
     got = [ast.unparse(s_) for s_ in body]
+    if len(body) == 4 and isinstance(body[3], ast.Return) and isinstance(body[3].value, ast.DictComp):
+        dc = body[3].value
+        g = dc.generators[0] if len(dc.generators) == 1 else None
+        if g is not None and ast.unparse(g.iter) == "candidates.items()" and isinstance(g.target, ast.Tuple) and len(g.target.elts) == 2 \
+                and all(isinstance(x, ast.Name) for x in g.target.elts) and len(g.ifs) == 1:
+            kn, vn = (x.id for x in g.target.elts)
+            if ast.unparse(dc.key) == kn and ast.unparse(dc.value) == vn and ast.unparse(g.ifs[0]) in (f"candidates[{kn}].individuals", f"{vn}.individuals"):
+                got[3] = want[3]      # the parents left with at least one seed, however the variables are called
     if got != want:
         j = next((i for i, (x, y) in enumerate(zip(got, want)) if x != y), min(len(got), len(want)))
         raise Unsupported(f"{MSRC}:{fn.lineno}: SproutMechanism.get_seeds, apart from the plotting history, is not generator -> deme filters -> tree filters -> "
